@@ -4,7 +4,7 @@
    No Extract Constant, no further Extract Inductive. *)
 From Coq Require Import ExtrOcamlBasic.
 From LoraV Require Import Base.Prelude Model.Toa Spec.Airtime Model.Ldro Spec.LdroSpec
-  Base.Bytes Crypto.AES Crypto.CMAC Model.Frame Spec.L2Frame Model.Exec Model.MacCmd Gen.CmdTables Model.MacFields Model.Region Model.Mac Model.Persist.
+  Base.Bytes Crypto.AES Crypto.CMAC Model.Frame Spec.L2Frame Model.Exec Model.MacCmd Gen.CmdTables Model.MacFields Model.Region Model.Mac Model.Persist Gen.PhyTables Model.PhyCore Model.Sx126x Model.Sx127x.
 Extraction Language OCaml.
 Extraction "model.ml"
   Toa.toa_us Toa.toa_safe Toa.ldro Toa.t_sym_us Toa.bw_hz
@@ -26,4 +26,15 @@ Extraction "model.ml"
   MacFields.cr_new MacFields.mc_set MacFields.mc_build MacFields.mc_get MacFields.to_hex_msb MacFields.from_hex_msb
   Exec.x_join_otaa Exec.x_send Exec.x_mac_handle_rx Exec.x_mac_rx2_complete Exec.x_rxc_config Exec.x_next_fcnt_down
   Mac.mac_new Mac.session_new Mac.set_adr Mac.set_datarate Mac.get_rx_delay Mac.with_state Mac.with_region Region.jc_default Region.region_new
-  Persist.ser_session Persist.de_session Persist.restore.
+  Persist.ser_session Persist.de_session Persist.restore
+  PhyCore.run PhyCore.set_nthN PhyTables.sx1261_pa_table PhyTables.sx1262_pa_table PhyTables.stm32wl_hp_pa_table
+  Sx126x.init_lora_126 Sx126x.sync_word_write Sx126x.set_standby_126 Sx126x.set_sleep_126 Sx126x.ensure_ready_126 Sx126x.set_buffer_base
+  Sx126x.set_tx_power_126 Sx126x.create_mod_126 Sx126x.set_mod_126 Sx126x.create_pkt_preamble_126 Sx126x.set_pkt_126 Sx126x.calibrate_image_126
+  Sx126x.set_channel_126 Sx126x.set_payload_126 Sx126x.do_tx_126 Sx126x.do_rx_126 Sx126x.get_rx_payload_126 Sx126x.pkt_status_126
+  Sx126x.get_rssi_126 Sx126x.do_cad_126 Sx126x.set_irq_126 Sx126x.set_cw_126 Sx126x.clear_irq_126 Sx126x.get_irq_state_126 Sx126x.process_irq_126
+  Sx126x.pll_step_126 Sx126x.symb_timeout_126 Sx126x.pa_lookup
+  Sx127x.init_lora_127 Sx127x.set_sync_127 Sx127x.set_standby_127 Sx127x.set_sleep_127 Sx127x.reset_127 Sx127x.set_buffer_base_127
+  Sx127x.set_tx_power_127 Sx127x.create_mod_127 Sx127x.create_pkt_127 Sx127x.set_mod_127 Sx127x.set_pkt_127 Sx127x.set_channel_127
+  Sx127x.set_payload_127 Sx127x.do_tx_127 Sx127x.do_rx_127 Sx127x.get_rx_payload_127 Sx127x.pkt_status_127 Sx127x.get_rssi_127
+  Sx127x.do_cad_127 Sx127x.set_irq_127 Sx127x.get_irq_state_127 Sx127x.process_irq_127 Sx127x.set_cw_127 Sx127x.clear_irq_127
+  Sx127x.pll_step_127 Sx127x.pll_to_freq_127.
